@@ -76,16 +76,14 @@ non-trivial run without the integrality shortcut. -/
 theorem C13_endpoints_partial (o : FOps) (f : Fn) (p : Params) (fuel : Nat) (d : Dom) (r : Res)
     (hper : f.periodic = false) (hint : p.isInt = false)
     (hd : clipDomain f p = .ok d)
-    (hnontriv : ¬ fsub o d.ubx eps6 < d.lbx) (hord : ¬ o.toF d.ubx < o.toF d.lbx)
+    (hnontriv : domainClass o d.lbx d.ubx = 2) (hord : ¬ o.toF d.ubx < o.toF d.lbx)
     (h : run o f p fuel = .ok r) :
     r.xs.head? = some (o.toF d.lbx) ∧ r.domOut = d := by
   unfold run at h
   rw [hd] at h
   simp only [bind, Except.bind] at h
-  split at h
-  · exact (throw_ne_ok h).elim
-  · try rw [if_neg hnontriv] at h
-    simp only [hper, Bool.false_eq_true, if_false] at h
+  rw [if_neg (by rw [hnontriv]; decide), if_neg (by rw [hnontriv]; decide)] at h
+  · simp only [hper, Bool.false_eq_true, if_false] at h
     split at h
     · cases h
     · rename_i v heq
@@ -167,10 +165,10 @@ theorem C13_periodic_cover (sq : Rat → Rat) (f : Fn) (d : Dom) (res : Res) (bp
       obtain ⟨n, h1, h2, h3, h4⟩ := periodic_cover_arith d.lbx d.ubx f.perLb f.perUb x hp hl hu
       subst this
       refine ⟨n, ?_, ?_, ?_, ?_, rfl⟩
-      · simp only [fsub, fdiv, exactOps, id]; exact_mod_cast h1
-      · simp only [fsub, fdiv, exactOps, id]; exact_mod_cast h2
-      · simp only [fsub, exactOps, id]; exact h3
-      · simp only [fsub, exactOps, id]; exact h4
+      · simp only [periodLen, facArg, fsub, fdiv, exactOps, id]; exact_mod_cast h1
+      · simp only [periodLen, facArg, fsub, fdiv, exactOps, id]; exact_mod_cast h2
+      · simp only [periodLen, fsub, exactOps, id]; exact h3
+      · simp only [periodLen, fsub, exactOps, id]; exact h4
     · exact (throw_ne_ok h).elim
 
 /-! ## integer arguments -/
@@ -198,6 +196,65 @@ theorem C13_int_exact (sq : Rat → Rat) (f : Fn) (x0 : Rat) (N : Nat) (r : PL)
     obtain ⟨_, _, _, _, _, _, hall⟩ := hI
     exact hall j (by omega)
 
+theorem truncInt_intCast (n : Int) (h : 0 ≤ n) : truncInt (n : Rat) = n := by
+  unfold truncInt
+  have h0 : (0 : Rat) ≤ (n : Rat) := by exact_mod_cast h
+  have : ¬ ((n : Rat) < 0) := by grind
+  rw [if_neg this, Rat.floor_intCast]
+
+theorem intCount_exact (sq : Rat → Rat) (lbx ubx : Rat) :
+    intCount (exactOps sq) lbx ubx = ((ubx.floor - lbx.ceil + 1 : Int) : Rat) := by
+  simp only [intCount, fadd, fsub, exactOps, id]
+  push_cast
+  rfl
+
+/-- **Exactness at every integer of the reported domain** (exact arithmetic), stated on `ConsiderIntegrality` itself:
+when it decides for one breakpoint per integer (`N ≤` current number of breakpoints, `N > 0`), the returned point
+list represents `f` exactly at *every* integer `t` with `lbx ≤ t ≤ ubx`; and when the domain holds no integer it
+reports infeasibility (`C13_int_no_integer_infeasible`). -/
+theorem C13_int_exact_domain (sq : Rat → Rat) (f : Fn) (d : Dom) (pl r : PL)
+    (h : considerIntegrality (exactOps sq) f true false d pl = .ok r)
+    (hdec : intDecision (d.ubx.floor - d.lbx.ceil + 1) (pl.length : Int) = 1)
+    (t : Int) (hl : d.lbx ≤ (t : Rat)) (hu : (t : Rat) ≤ d.ubx) :
+    ∃ v, f.eval (t : Rat) = .fin v ∧ plEvalR r (t : Rat) = v := by
+  have hNpos : 0 < d.ubx.floor - d.lbx.ceil + 1 := by
+    unfold intDecision at hdec
+    split at hdec
+    · cases hdec
+    · omega
+  unfold considerIntegrality at h
+  simp only [Bool.not_false, Bool.and_self, if_true] at h
+  rw [intCount_exact, truncInt_intCast _ (by omega)] at h
+  simp only [hdec] at h
+  split at h
+  · exact (throw_ne_ok h).elim
+  · have h : intPoints (exactOps sq) f ((d.lbx.ceil : Int) : Rat) (d.ubx.floor - d.lbx.ceil + 1).toNat 0 [] = .ok r := by
+      simpa using h
+    have hc : d.lbx.ceil ≤ t := Rat.ceil_le_iff.mpr hl
+    have hf : t ≤ d.ubx.floor := Rat.le_floor_iff.mpr hu
+    have hj : (t - d.lbx.ceil).toNat < (d.ubx.floor - d.lbx.ceil + 1).toNat := by omega
+    obtain ⟨v, hv1, hv2⟩ := C13_int_exact sq f _ _ r h _ hj
+    have hx : ((d.lbx.ceil : Int) : Rat) + (((t - d.lbx.ceil).toNat : Nat) : Rat) = (t : Rat) := by
+      have : (((t - d.lbx.ceil).toNat : Nat) : Int) = t - d.lbx.ceil := Int.toNat_of_nonneg (by omega)
+      have h2 : (((t - d.lbx.ceil).toNat : Nat) : Rat) = ((t - d.lbx.ceil : Int) : Rat) := by
+        rw [← this]; rfl
+      rw [h2]; push_cast; grind
+    rw [hx] at hv1 hv2
+    exact ⟨v, hv1, hv2⟩
+
+/-- error branch (since a382c6e): an integer argument whose clipped domain contains no integer is reported
+infeasible, for every arithmetic -/
+theorem C13_int_no_integer_infeasible (o : FOps) (f : Fn) (d : Dom) (pl : PL)
+    (hr : ¬ (intCount o d.lbx d.ubx ≥ 2147483648 ∨ intCount o d.lbx d.ubx ≤ -2147483649))
+    (hn : truncInt (intCount o d.lbx d.ubx) ≤ 0) :
+    considerIntegrality o f true false d pl = .error .infeas := by
+  unfold considerIntegrality
+  simp only [Bool.not_false, Bool.and_self, if_true]
+  rw [if_neg hr]
+  have : intDecision (truncInt (intCount o d.lbx d.ubx)) (pl.length : Int) = 0 := by
+    unfold intDecision; rw [if_pos hn]
+  simp [this, throw, throwThe, MonadExceptOf.throw, bind, Except.bind, pure, Except.pure]
+
 /-! ## the validator run on every output of the real code -/
 
 /-- `checkPL` is sound: an output it accepts has as many ordinates as abscissae, at least one point, and
@@ -215,7 +272,43 @@ theorem C13_checkEnds_sound (out : Output) (h : checkEnds out = true) :
   simp only [Bool.and_eq_true, beq_iff_eq] at h
   exact h
 
-/-! ## non-vacuity -/
+/-! ## non-vacuity: concrete, non-trivial instances meeting the hypotheses of the theorems above -/
+
+/-- `C13_addPoint_increasing`: an offered sequence with a repetition, a point closer than 1e-4, an out-of-order
+point and a run of equal ordinates; 3 of the 7 points survive -/
+example : ((([(0, 5), (0, 5), (1/100000, 6), (1, 7), (1/2, 0), (2, 7), (3, 7)] : List (Rat × Rat)).foldl
+    (fun pl p => addPoint (exactOps id) pl p.1 p.2) []).reverse.map Prod.fst) = [0, 1, 3] := by decide +kernel
+
+/-- `C13_endpoints_partial`: every hypothesis holds for the float-rounding counterexample instance -/
+example : idFn.periodic = false ∧
+    (clipDomain idFn { dom := ⟨dbl0_1, 1, -10, 10⟩, isInt := false, ubErr := 1/100 }).toOption = some ⟨dbl0_1, 1, -10, 10⟩ ∧
+    domainClass ieee dbl0_1 1 = 2 ∧ ¬ ieee.toF 1 < ieee.toF dbl0_1 := by
+  refine ⟨rfl, ?_, ?_, ?_⟩ <;> decide +kernel
+
+/-- a periodic function record (period `[0,2]`, breakpoints `0,1,2`) -/
+def perFn : Fn := { idFn with periodic := true, perLb := 0, perUb := 2, bps := [0, 1, 2], dom := ⟨-1000, 1000, -10, 10⟩ }
+
+/-- `C13_periodic_cover`: `InitPeriodic` succeeds on `[-3, 5]` with factor range `[-2, 3]`, and e.g. `x = 9/2` is
+`2·2 + 1/2` -/
+example : (initPeriodic (exactOps id) perFn ⟨-3, 5, -10, 10⟩).toOption.map
+    (fun rb => (rb.1.periodLength, rb.1.facLb, rb.1.facUb, rb.1.usePeriod)) = some (2, -2, 3, true) := by decide +kernel
+
+/-- `C13_int_exact`: the shortcut on `x0 = -1`, `N = 4` for `f(x) = x` -/
+example : (intPoints (exactOps id) idFn (-1) 4 0 []).toOption = some [(2, 2), (1, 1), (0, 0), (-1, -1)] := by
+  decide +kernel
+
+/-- … and with a run of equal ordinates merged (`f = 7` constant): two points represent four integers -/
+example : (intPoints (exactOps id) { idFn with eval := fun _ => .fin 7 } (-1) 4 0 []).toOption
+    = some [(2, 7), (-1, 7)] := by decide +kernel
+
+/-- `C13_int_exact_domain` / `C13_int_no_integer_infeasible`: integer `x ∈ [-1/2, 5/2]` with 4 breakpoints already
+present takes the shortcut (3 integers); integer `x ∈ [1/5, 4/5]` is infeasible -/
+example : (considerIntegrality (exactOps id) idFn true false ⟨-1/2, 5/2, -10, 10⟩ [(3, 3), (2, 2), (1, 1), (0, 0)]).toOption
+    = some [(2, 2), (1, 1), (0, 0)] := by decide +kernel
+example : considerIntegrality (exactOps id) idFn true false ⟨1/5, 4/5, -10, 10⟩ [(1, 1), (0, 0)] = .error .infeas :=
+  C13_int_no_integer_infeasible (exactOps id) idFn ⟨1/5, 4/5, -10, 10⟩ _ (by decide +kernel) (by decide +kernel)
+
+/-! ## non-vacuity of `run` -/
 
 /-- the skeleton does produce multi-point results (here: 3 breakpoints through 0 on `[-1, 1]`) -/
 example : (run (exactOps id) { idFn with bps := [-10, 0, 10] }
